@@ -57,6 +57,7 @@ func init() {
 
 // SetParseErrorLanguage 设置解析错误消息的语言
 func SetParseErrorLanguage(lang int) {
+	verifShared("parseErrorLanguage", true)
 	parseErrorLanguage = lang
 }
 
@@ -122,6 +123,7 @@ func formatFriendlyError(pos position, input []byte, expected []string) error {
 func fmtErr(pos position, input []byte, msg bilingualMsg, char rune) error {
 	var sb strings.Builder
 
+	verifShared("parseErrorLanguage", false)
 	// 标题
 	switch parseErrorLanguage {
 	case ParseErrorLanguageChinese:
